@@ -22,7 +22,7 @@ def execSeq (C : CSys σ α ℓ) (s : σ) : List α → Option σ
     | none => none
 
 /-- τ-closure (worklist, bounded by `fuel` expansions); returns states and the number of transitions taken -/
-def closure (C : CSys σ α ℓ) (fuel : Nat) (start : List σ) : List σ × Nat := Id.run do
+def closure (C : CSys σ α ℓ) (fuel : Nat) (start : List σ) : List σ × Nat × Bool := Id.run do
   let mut seen : Std.HashSet σ := {}
   let mut out : List σ := []
   let mut work : List σ := []
@@ -46,10 +46,11 @@ def closure (C : CSys σ α ℓ) (fuel : Nat) (start : List σ) : List σ × Nat
             seen := seen.insert s'
             out := s' :: out
             work := s' :: work
-  return (out, trans)
+  -- `true`: the fuel ran out before the worklist was empty – the set is incomplete and nothing may be concluded from it
+  return (out, trans, !work.isEmpty)
 
-def stepLabel (C : CSys σ α ℓ) (fuel : Nat) (ss : List σ) (l : ℓ) : List σ × Nat := Id.run do
-  let (cl, t0) := closure C fuel ss
+def stepLabel (C : CSys σ α ℓ) (fuel : Nat) (ss : List σ) (l : ℓ) : List σ × Nat × Bool := Id.run do
+  let (cl, t0, ex) := closure C fuel ss
   let mut seen : Std.HashSet σ := {}
   let mut out : List σ := []
   let mut trans := t0
@@ -60,28 +61,31 @@ def stepLabel (C : CSys σ α ℓ) (fuel : Nat) (ss : List σ) (l : ℓ) : List 
         if !seen.contains s' then
           seen := seen.insert s'
           out := s' :: out
-  return (out, trans)
+  return (out, trans, ex)
 
 structure Result (σ : Type) where
   rejectedAt : Option Nat     -- index of the first label no model state can perform
   final      : List σ          -- τ-closed set of states after the whole trace
   maxStates  : Nat
   trans      : Nat
+  exhausted  : Bool := false   -- some τ-closure was cut off by the fuel bound: a rejection is then inconclusive
 
 def runTrace (C : CSys σ α ℓ) (fuel : Nat) (init : σ) (trace : List ℓ) : Result σ := Id.run do
   let mut ss : List σ := [init]
   let mut mx := 1
   let mut tr := 0
   let mut i := 0
+  let mut exh := false
   for l in trace do
-    let (ss', t) := stepLabel C fuel ss l
+    let (ss', t, ex) := stepLabel C fuel ss l
     tr := tr + t
+    exh := exh || ex
     if ss'.isEmpty then
-      return { rejectedAt := some i, final := ss, maxStates := mx, trans := tr }
+      return { rejectedAt := some i, final := ss, maxStates := mx, trans := tr, exhausted := exh }
     ss := ss'
     if ss.length > mx then mx := ss.length
     i := i + 1
-  let (cl, t) := closure C fuel ss
-  return { rejectedAt := none, final := cl, maxStates := max mx cl.length, trans := tr + t }
+  let (cl, t, ex) := closure C fuel ss
+  return { rejectedAt := none, final := cl, maxStates := max mx cl.length, trans := tr + t, exhausted := exh || ex }
 
 end Wm.Conf
